@@ -62,7 +62,7 @@ def _worker(item):
     import seismic_zfp.tools
     d = env.subdir(f'c13-{os.getpid()}')
     il, xl = axis(cube_spec[0]), axis(cube_spec[1])
-    nz = 7
+    nz = 300 if ci % 4 == 2 else 7         # (every fourth cube: traces of three disk blocks in the default layout)
     cube = inputs.cube((len(il), len(xl), nz), par.G['seed'] + ci)
     sgy, sgz = os.path.join(d, f'q{ci}.sgy'), os.path.join(d, f'q{ci}.sgz')
     out = []
@@ -235,9 +235,9 @@ def run(run):
     rng = np.random.default_rng(run.seed)
     cubes = CUBES if quick else CUBES + [((3, 1, 6), (50, -2, 6)), ((60, -3, 6), (1, 2, 6))]
     items = []
-    for a, b in cubes:
+    for kc, (a, b) in enumerate(cubes):
         il, xl = axis(a), axis(b)
-        ntr, nz = len(il) * len(xl), 7
+        ntr, nz = len(il) * len(xl), (300 if kc % 4 == 2 else 7)       # (as _worker: every fourth cube has traces of three disk blocks)
         items.append({'il': il.tolist(), 'xl': xl.tolist(), 'ntr': ntr, 'nz': nz,
                       'tbounds': [N, 0, 1, -1, -ntr, ntr, ntr - 1, ntr // 2, -(ntr // 2)], 'tsteps': [N, 1, 2, -1, -3, ntr],
                       'tidx': [0, 1, ntr - 1, -1, -ntr, ntr, -ntr - 1, 2 * ntr], 'zbounds': [N, 0, -1, nz, 3, -3], 'zsteps': [N, 2, -1, -2],
